@@ -11,7 +11,7 @@
    embeddability in the plane (Wagner/Kuratowski), and the Euler bound m <= 3n-6 for graphs
    without K5 / K3,3 minor (so the `m > 3n-6 => false` shortcut is tied to the code by
    correspondence and to the specification by exploration only). *)
-From Coq Require Import List Arith Bool.
+From Coq Require Import List Arith Bool Lia.
 From Mamba Require Import Planar.Model Planar.Spec Planar.SpecLemmas Planar.Invariance
   Planar.Constructors Planar.ExecProofs Planar.CertProofs.
 Import ListNotations.
@@ -76,8 +76,7 @@ Example C11_spec_relabel_nonvacuous :
   let q := fun v => match v with 3 => 0 | 0 => 1 | 1 => 2 | 2 => 3 | _ => v end in
   perm_on 5 p q /\ relabel K5 p = mkG 5 [(3,0);(3,1);(3,2);(3,4);(0,1);(0,2);(0,4);(1,2);(1,4);(2,4)].
 Proof.
-  split; [|reflexivity]. split; intros v Hv; do 5 (destruct v as [|v]; [simpl; auto with arith|]);
-    exfalso; repeat apply Nat.succ_lt_mono in Hv; inversion Hv.
+  split; [|reflexivity]. split; intros v Hv; do 5 (destruct v as [|v]; [simpl; split; [lia|reflexivity]|]); lia.
 Qed.
 
 (* ---- monotone under subgraphs: every graph that embeds into a planar graph is planar
